@@ -30,13 +30,16 @@ LkhRandom(count) ==
   { LET n == 6 + (c % 4)
         m == IF c % 3 = 0 THEN LineMat(n, [i \in 1..n |-> Hash(c, i, 0, 10)]) ELSE RandMat(c, n, 10) IN
     LkhCase("rand" \o ToString(c), m, n, Identity(n), IF c % 5 = 0 THEN 3 ELSE 9) : c \in 1..count }
-\* Euclidean stratum: integer grid points, the harness takes the (irrational, floating point) Euclidean distance; every other
-\* case repeats its first point twice more (duplicates = zero-cost edges and exact ties)
+\* Euclidean stratum: integer grid points, the harness takes the (irrational, floating point) Euclidean distance
 LkhGeo(count) ==
-  { LET n == 5 + (c % 8)
+  { LET n == 5 + (c % 12)
         raw == [i \in 1..n |-> <<Hash(c, i, 1, 10), Hash(c, i, 2, 10)>>]
-        pts == IF c % 2 = 0 THEN [i \in 1..n |-> IF i > n - 2 THEN raw[1] ELSE raw[i]] ELSE raw IN
-    [kind |-> "lkhgeo", tag |-> "geo" \o ToString(c), n |-> n, pts |-> pts, path |-> Identity(n)] : c \in 1..count }
+        \* every other case: the nodes share 4 addresses (many zero-cost edges and exact ties); else the first point is repeated twice
+        pts == IF c % 2 = 0 THEN [i \in 1..n |-> raw[1 + (Hash(c, i, 3, 97) % 4)]]
+               ELSE IF c % 4 = 1 THEN [i \in 1..n |-> IF i > n - 2 THEN raw[1] ELSE raw[i]] ELSE raw
+        \* the harness multiplies the coordinates by the scale: the rounding residue of a gain grows with the magnitude of the costs
+        scale == IF c % 3 = 0 THEN 1 ELSE IF c % 3 = 1 THEN 1000 ELSE 100000 IN
+    [kind |-> "lkhgeo", tag |-> "geo" \o ToString(c), n |-> n, pts |-> pts, scale |-> scale, path |-> Identity(n)] : c \in 1..count }
 \* ---- k-medoids: points are 1..n, the distance is given as a matrix
 GridMat(n, ps) == [i \in 1..n |-> [j \in 1..n |-> (ps[i][1] - ps[j][1]) * (ps[i][1] - ps[j][1]) + (ps[i][2] - ps[j][2]) * (ps[i][2] - ps[j][2])]]
 KmCase(tag, d, n, k) == [kind |-> "km", tag |-> tag, n |-> n, d |-> d, k |-> k]
